@@ -586,8 +586,9 @@ class Engine:
         # 3. opaque
         self.opaque.add(name)
         n = len(st.effects)
+        pointees = [self.load(st, a[1]) if a[0] == 'ref' else None for a in args]
         st.effects.append({'kind': 'call', 'callee': name, 'declared': declared, 'args': args, 'site': site,
-                           'tracing': in_tr, 'fn': fn})
+                           'tracing': in_tr, 'fn': fn, 'pointees': pointees})
         if target is None:
             results.append(PathResult('panic', st, None, site))
             return False
